@@ -30,17 +30,18 @@ enum Fault {
 	F_DIST_TOO_FAR,    // distance > bytes produced (+dict) -> invalid look-back
 	F_LL_INCOMPLETE,   // incomplete literal/length code (grey zone: zlib rejects, RFC silent)
 	F_CL_INCOMPLETE,   // incomplete code-length code (grey zone)
+	F_D_UNASSIGNED,    // incomplete distance code with codes longer than 10 bits AND a match that uses the unassigned bit pattern (must never be accepted)
 	N_FAULTS
 };
 inline const char *fault_name(int f) {
 	static const char *N[] = {"none", "stored_nlen", "btype3", "hlit>29", "hdist>29", "cl_oversubscribed", "ll_oversubscribed", "dist_oversubscribed", "repeat_no_prev",
-	                          "repeat_overflow", "no_eob", "dist_symbol_30_31", "litlen_286_287", "dist_too_far", "ll_incomplete", "cl_incomplete"};
+	                          "repeat_overflow", "no_eob", "dist_symbol_30_31", "litlen_286_287", "dist_too_far", "ll_incomplete", "cl_incomplete", "dist_code_unassigned_pattern_used"};
 	return N[f];
 }
 inline refinf::Status fault_status(int f) {
 	using namespace refinf;
 	static const Status S[] = {OK, E_STORED_LEN, E_BLOCKTYPE, E_HDR_COUNTS, E_HDR_COUNTS, E_CODELEN_CODE, E_LITLEN_CODE, E_DIST_CODE, E_REPEAT, E_REPEAT, E_NO_EOB, E_BAD_DIST_SYM,
-	                           E_BAD_SYMBOL, E_DIST_TOO_FAR, E_LITLEN_CODE, E_CODELEN_CODE};
+	                           E_BAD_SYMBOL, E_DIST_TOO_FAR, E_LITLEN_CODE, E_CODELEN_CODE, E_DIST_CODE};
 	return S[f];
 }
 
@@ -137,6 +138,47 @@ struct Gen {
 	Gen(pbt::Tape &tp, const Params &p, Stream &s) : t(tp), P(p), S(s) {}
 
 	size_t avail_hist() const { return S.data.size() + P.dict_len; }
+	// split the deepest leaf of a complete code again and again, handing the new branch to unused symbols (highest index first), until `depth` is reached;
+	// the code stays complete.  Returns the symbol that ends up with the all-ones pattern of the deepest level (-1 if there were not enough free symbols).
+	static int deepen(std::vector<uint8_t> &lens, int nsyms, int depth) {
+		int mx = 0, at = -1, ncodes = 0;
+		for (int i = 0; i < nsyms; i++) if (lens[i]) { ncodes++; if (lens[i] >= mx) mx = lens[i], at = i; }
+		if (ncodes < 2) return -1;
+		while (mx < depth) {
+			int u = -1;
+			for (int i = nsyms - 1; i >= 0; i--) if (!lens[i]) { u = i; break; }
+			if (u < 0) return -1;
+			lens[at] = lens[u] = (uint8_t) ++mx;
+		}
+		int last = -1;
+		for (int i = 0; i < nsyms; i++) if (lens[i] == mx) last = i; // canonical order: the highest symbol of the deepest level gets the all-ones code
+		return last;
+	}
+	std::vector<Tok> forced; // tokens for the next dynamic block, prepared by a special-purpose builder
+
+	// A non-final block whose output ends at (or 1..3 bytes around) a multiple of 64 KiB with one or two literals directly before the end-of-block code:
+	// the point where the decoder's internal 2*32 KiB window buffer is exactly full when all input is supplied at once.
+	void window_fill_block() {
+		size_t base = S.data.size();
+		size_t target = 65536 * (size_t) t.range(1, 2) - base % 65536 + (size_t) t.pick<uint32_t>({0, 0, 1, 2, 3, 65535, 65534}) % 65536;
+		if (target + base > 65536 * 2 + 3) target -= 65536;
+		unsigned nl_end = (unsigned) t.range(1, 2), nl_start = (unsigned) t.range(1, 4), d = (unsigned) t.pick<uint32_t>({1, 2, 3, 4});
+		if (d > nl_start) d = nl_start;
+		uint64_t s = t.bits64();
+		auto lit = [&](uint64_t i) { Tok k{}; k.len = 0; k.lit = (uint8_t) ("abcXYZ\0\xff"[pbt::mix64(s + i) % 8]); S.data.push_back(k.lit); forced.push_back(k); };
+		for (unsigned i = 0; i < nl_start; i++) lit(i);
+		while (S.data.size() - base + 3 + nl_end <= target) {
+			size_t room = target - nl_end - (S.data.size() - base);
+			unsigned len = room >= 258 + 3 || room == 258 ? 258 : room > 258 ? (unsigned) (room - 3) : (unsigned) room;
+			Tok k{}; k.len = (uint16_t) len; k.dist = (uint16_t) d;
+			emit_copy(len, d); forced.push_back(k); S.nmatches++;
+		}
+		while (S.data.size() - base + nl_end < target) lit(100 + S.data.size());
+		for (unsigned i = 0; i < nl_end; i++) lit(200 + i);
+		S.labels.insert("block-ends-at-64KiB-window-fill");
+		dynamic_block(false);
+		S.nblocks++;
+	}
 
 	void emit_copy(unsigned len, unsigned dist) {
 		for (unsigned k = 0; k < len; k++) {
@@ -213,8 +255,21 @@ struct Gen {
 				w.put(k.dist - refinf::DBASE[ds], refinf::DEXT[ds]);
 			}
 		}
+		if (unassigned_dist_len) {
+			// length symbol of an existing match (any assigned length code), then the unassigned distance pattern: all ones
+			int ls = -1;
+			for (const Tok &k : toks) if (k.len && !k.raw_sym) ls = len_sym(k.len);
+			if (ls >= 0) {
+				w.put_code(llc[257 + ls], ll[257 + ls]);
+				w.put(0, refinf::LEXT[ls]);
+				for (int i = 0; i < unassigned_dist_len; i++) w.put(1, 1);
+				for (int i = 0; i < 13; i++) w.put(0, 1);
+			}
+			unassigned_dist_len = 0;
+		}
 		w.put_code(llc[256], ll[256]);
 	}
+	int unassigned_dist_len = 0;
 
 	void stored_block(bool final) {
 		w.put(final, 1);
@@ -295,7 +350,8 @@ struct Gen {
 		std::vector<Tok> toks;
 		size_t ntok = decode_ntok(final);
 		int matchpct = (int) t.pick<uint32_t>({30, 0, 60, 95, 100});
-		gen_tokens(toks, ntok, (int) t.range(0, 3), matchpct);
+		if (!forced.empty()) { toks.swap(forced); (void) t.range(0, 3); } // prepared tokens (their bytes are already in S.data)
+		else gen_tokens(toks, ntok, (int) t.range(0, 3), matchpct);
 		if (P.fault == F_DIST_TOO_FAR && !S.fault_applied) inject_too_far(toks);
 		// alphabets actually used
 		std::set<int> llu{256}, du;
@@ -335,9 +391,31 @@ struct Gen {
 		// grammar faults on the code sets
 		bool f = !S.fault_applied;
 		if (f && P.fault == F_NO_EOB) { ll[256] = 0; if (lls.size() == 1) ll[0] = 1, ll[1] = 1; S.fault_applied = true; }
-		if (f && P.fault == F_LL_OVERSUB) { int mn = 16, at = 256; for (int s : lls) if (ll[s] < mn) mn = ll[s], at = s; if (ll[at] > 1) { ll[at]--; S.fault_applied = true; } else if (lls.size() >= 2) { for (int i = 0; i < 286; i++) if (!ll[i]) { ll[i] = 1; S.fault_applied = true; break; } } }
+		bool deep_over = f && (P.fault == F_LL_OVERSUB || P.fault == F_D_OVERSUB) && t.coin();
+		if (deep_over && P.fault == F_LL_OVERSUB && lls.size() >= 2) {
+			std::vector<uint8_t> l2(ll);
+			if (deepen(l2, 286, 15) >= 0) { for (int i = 285; i >= 0; i--) if (!l2[i]) { l2[i] = 15; ll = l2; S.fault_applied = true; S.labels.insert("oversubscribed-only-at-15-bits"); break; } }
+		}
+		if (deep_over && P.fault == F_D_OVERSUB && ds.size() >= 2) {
+			std::vector<uint8_t> d2(dl);
+			if (deepen(d2, 30, 15) >= 0) { for (int i = 29; i >= 0; i--) if (!d2[i]) { d2[i] = 15; dl = d2; S.fault_applied = true; S.labels.insert("oversubscribed-only-at-15-bits"); break; } }
+		}
+		if (f && !S.fault_applied && P.fault == F_LL_OVERSUB) { int mn = 16, at = 256; for (int s : lls) if (ll[s] < mn) mn = ll[s], at = s; if (ll[at] > 1) { ll[at]--; S.fault_applied = true; } else if (lls.size() >= 2) { for (int i = 0; i < 286; i++) if (!ll[i]) { ll[i] = 1; S.fault_applied = true; break; } } }
 		if (f && P.fault == F_LL_INCOMPLETE && lls.size() >= 2) { int mx = 0, at = -1; for (int s : lls) if (s != 256 && ll[s] >= mx) mx = ll[s], at = s; if (at >= 0 && mx < 15) { ll[at]++; S.fault_applied = true; } }
-		if (f && P.fault == F_D_OVERSUB && ds.size() >= 2) { int mn = 16, at = 0; for (int s : ds) if (dl[s] < mn) mn = dl[s], at = s; if (dl[at] > 1) { dl[at]--; S.fault_applied = true; } else { for (int i = 0; i < 30; i++) if (!dl[i]) { dl[i] = 1; S.fault_applied = true; break; } } }
+		// over-subscription confined to the deepest level: complete code deepened to 15 bits plus one more 15-bit code (Kraft sum 1 + 2^-15)
+		if (f && P.fault == F_D_UNASSIGNED && ds.size() >= 2 && !toks.empty()) {
+			std::vector<uint8_t> d2(dl);
+			int last = deepen(d2, 30, (int) t.range(11, 15));
+			if (last >= 0 && !du.count(last)) {
+				int deep = d2[last];
+				d2[last] = 0; // its all-ones pattern is now unassigned; the code is incomplete by 2^-deep
+				dl = d2;
+				// a match whose distance code is that pattern, right after the generated tokens
+				unassigned_dist_len = deep;
+				S.fault_applied = true;
+			}
+		}
+		if (f && !S.fault_applied && P.fault == F_D_OVERSUB && ds.size() >= 2) { int mn = 16, at = 0; for (int s : ds) if (dl[s] < mn) mn = dl[s], at = s; if (dl[at] > 1) { dl[at]--; S.fault_applied = true; } else { for (int i = 0; i < 30; i++) if (!dl[i]) { dl[i] = 1; S.fault_applied = true; break; } } }
 		int max_ll_len = 0, max_d_len = 0;
 		for (uint8_t l : ll) max_ll_len = std::max<int>(max_ll_len, l);
 		for (uint8_t l : dl) max_d_len = std::max<int>(max_d_len, l);
@@ -435,6 +513,7 @@ struct Gen {
 	void run() {
 		int nblocks = (int) (t.range(0, 3) == 0 ? t.range(1, 8) : t.range(1, 3));
 		bool bulk = P.allow_big && t.range(0, 5) == 0; // make 32 KiB of history available early
+		if (P.allow_big && P.fault == F_NONE && !bulk && P.soft_max_out >= 150000 && t.range(0, 5) == 0) window_fill_block();
 		for (int b = 0; b < nblocks; b++) {
 			bool final = b == nblocks - 1;
 			size_t before = S.data.size();
@@ -445,6 +524,12 @@ struct Gen {
 				break;
 			}
 			int ty = (int) t.range(0, 5);
+			if (P.fault != F_NONE && !S.fault_applied && (final || t.coin())) {
+				// construction instead of rejection: the block type the fault lives in
+				if (P.fault == F_STORED_NLEN) ty = 0;
+				else if (P.fault == F_DIST_SYM_30 || P.fault == F_LIT_286) ty = 1;
+				else if (P.fault != F_DIST_TOO_FAR && P.fault != F_BTYPE3) ty = 3;
+			}
 			if (bulk && b == 0) {
 				// a stored block of >= 32 KiB, or a run of long matches
 				w.put(final, 1); w.put(0, 2); w.align(0);
